@@ -327,8 +327,11 @@ func ruleC20_2(c *Ctx) {
 		}
 		sort.Strings(fl)
 		for _, k := range fl {
-			want, got := c20Flags[n][k], cc.flags[k]
-			c.check(want == got && read[got], R, "cmd."+n, "flag --"+k, cc.global.Pos(), "bound to "+got+" (read by a handler)", fmt.Sprintf("flag --%s is bound to variable %q (expected %q; read by a handler: %v)", k, got, want, read[got]))
+			// every documented flag is registered, bound to a package variable that some handler reads; the variable's
+			// name is free (its use is checked through the flag: the library-call arguments below)
+			_, documented := c20Flags[n][k]
+			got := cc.flags[k]
+			c.check(documented && got != "" && read[got], R, "cmd."+n, "flag --"+k, cc.global.Pos(), "bound to "+got+" (read by a handler)", fmt.Sprintf("flag --%s: documented=%v, bound to variable %q, read by a handler: %v", k, documented, got, read[got]))
 		}
 		// flags that take file names are registered as string *arrays*: pflag splits string *slice* values at commas
 		// (CSV), so an artifact path with a comma would be cut into pieces
@@ -342,8 +345,22 @@ func ruleC20_2(c *Ctx) {
 			c.check(cc.required[k], R, "cmd."+n, "flag --"+k+" is required", cc.global.Pos(), "marked required", "flag --"+k+" is not marked required")
 		}
 	}
-	g := func(n string) string { return "global(cmd." + n + ")" }
-	checkArgs := func(fn, callee string, want map[int]string) {
+	// g: the package variable bound to a flag (looked up through the registrations of the command and its parents)
+	g := func(flag string) string {
+		for _, cn2 := range []string{"runCmd", "recordStartCmd", "recordStopCmd", "recordCmd", "matchProductsCmd", "verifyCmd", "signCmd"} {
+			_ = cn2
+		}
+		return "flag:" + flag
+	}
+	flagVar := func(cmdNames []string, flag string) string {
+		for _, cn2 := range cmdNames {
+			if cc := cmds[cn2]; cc != nil && cc.flags[flag] != "" {
+				return "global(cmd." + cc.flags[flag] + ")"
+			}
+		}
+		return "<flag --" + flag + " is not registered>"
+	}
+	checkArgs := func(fn, callee string, cmdNames []string, want map[int]string) {
 		f := c.lookup(fn)
 		if f == nil {
 			c.undecided(R, fn, "anchor", 0, "not found")
@@ -362,13 +379,19 @@ func ruleC20_2(c *Ctx) {
 		sort.Ints(idx)
 		for _, i := range idx {
 			got := org(a[i])
+			w := want[i]
+			if strings.HasPrefix(w, "flag:") {
+				w = flagVar(cmdNames, strings.TrimPrefix(w, "flag:"))
+			}
+			want := map[int]string{i: w}
 			c.check(got == want[i], R, fn, fmt.Sprintf("%s argument %d", trimPkg(callee), i), call.Pos(), want[i], fmt.Sprintf("argument %d of %s is %s, expected %s", i, callee, short(got), want[i]))
 		}
 	}
-	checkArgs("cmd.run", "in_toto.InTotoRun", map[int]string{0: g("stepName"), 1: g("runDir"), 2: g("materialsPaths"), 3: g("productsPaths"), 4: "p1", 5: g("key"), 7: g("exclude"), 8: g("lStripPaths"), 9: g("lineNormalization"), 10: g("followSymlinkDirs"), 11: g("useDSSE")})
-	checkArgs("cmd.recordStart", "in_toto.InTotoRecordStart", map[int]string{0: g("recordStepName"), 1: g("recordMaterialsPaths"), 2: g("key"), 4: g("exclude"), 5: g("lStripPaths"), 6: g("lineNormalization"), 7: g("followSymlinkDirs"), 8: g("useDSSE")})
-	checkArgs("cmd.recordStop", "in_toto.InTotoRecordStop", map[int]string{1: g("recordProductsPaths"), 2: g("key"), 4: g("exclude"), 5: g("lStripPaths"), 6: g("lineNormalization"), 7: g("followSymlinkDirs"), 8: g("useDSSE")})
-	checkArgs("cmd.matchProducts", "in_toto.InTotoMatchProducts", map[int]string{1: g("paths"), 3: g("exclude"), 4: g("lStripPaths")})
+	key := "global(cmd.key)"
+	checkArgs("cmd.run", "in_toto.InTotoRun", []string{"runCmd"}, map[int]string{0: g("name"), 1: g("run-dir"), 2: g("materials"), 3: g("products"), 4: "p1", 5: key, 7: g("exclude"), 8: g("lstrip-paths"), 9: g("normalize-line-endings"), 10: g("follow-symlink-dirs"), 11: g("use-dsse")})
+	checkArgs("cmd.recordStart", "in_toto.InTotoRecordStart", []string{"recordStartCmd", "recordCmd"}, map[int]string{0: g("name"), 1: g("materials"), 2: key, 4: g("exclude"), 5: g("lstrip-paths"), 6: g("normalize-line-endings"), 7: g("follow-symlink-dirs"), 8: g("use-dsse")})
+	checkArgs("cmd.recordStop", "in_toto.InTotoRecordStop", []string{"recordStopCmd", "recordCmd"}, map[int]string{1: g("products"), 2: key, 4: g("exclude"), 5: g("lstrip-paths"), 6: g("normalize-line-endings"), 7: g("follow-symlink-dirs"), 8: g("use-dsse")})
+	checkArgs("cmd.matchProducts", "in_toto.InTotoMatchProducts", []string{"matchProductsCmd"}, map[int]string{1: g("path"), 3: g("exclude"), 4: g("lstrip-paths")})
 	// run: command / --no-command consistency
 	if f := c.lookup("cmd.run"); f != nil {
 		n := 0
@@ -447,9 +470,9 @@ func ruleC20_3(c *Ctx) {
 	}
 	sites := []site{
 		{"cmd.run", "%s.%.8s.link", "", "global(cmd.key).KeyID", true},
-		{"cmd.recordStop", "%s.%.8s.link", "global(cmd.recordStepName)", "global(cmd.key).KeyID", true},
-		{"cmd.recordStart", ".%s.%.8s.link-unfinished", "global(cmd.recordStepName)", "global(cmd.key).KeyID", true},
-		{"cmd.recordStop", ".%s.%.8s.link-unfinished", "global(cmd.recordStepName)", "global(cmd.key).KeyID", false},
+		{"cmd.recordStop", "%s.%.8s.link", c.fv("name", "recordCmd"), "global(cmd.key).KeyID", true},
+		{"cmd.recordStart", ".%s.%.8s.link-unfinished", c.fv("name", "recordCmd"), "global(cmd.key).KeyID", true},
+		{"cmd.recordStop", ".%s.%.8s.link-unfinished", c.fv("name", "recordCmd"), "global(cmd.key).KeyID", false},
 	}
 	for _, s := range sites {
 		f := c.lookup(s.fn)
@@ -476,7 +499,7 @@ func ruleC20_3(c *Ctx) {
 					continue
 				}
 				for _, a := range k.Common().Args {
-					if derives(a, func(v ssa.Value) bool { return v == ssa.Value(sc) }, true) && derives(a, func(v ssa.Value) bool { return org(v) == "global(cmd.outDir)" }, true) {
+					if derives(a, func(v ssa.Value) bool { return v == ssa.Value(sc) }, true) && derives(a, func(v ssa.Value) bool { return org(v) == c.fv("metadata-directory", "runCmd", "recordCmd") }, true) {
 						used = true
 					}
 				}
@@ -521,7 +544,7 @@ func ruleC20_4(c *Ctx) {
 		if handler == "cmd.sign" {
 			f := c.lookup(handler)
 			ld := firstCall(f, "(*in_toto.Key).LoadKeyDefaults")
-			ok := ld != nil && org(ld.Common().Args[0]) == "global(cmd.key)" && org(ld.Common().Args[1]) == "global(cmd.keyPath)"
+			ok := ld != nil && org(ld.Common().Args[0]) == "global(cmd.key)" && org(ld.Common().Args[1]) == c.fv("key", "runCmd", "recordCmd", "signCmd")
 			if ok {
 				for _, k := range allCalls(f) {
 					kn := calleeName(k)
@@ -591,10 +614,10 @@ func ruleC20_4(c *Ctx) {
 		}
 		for _, site := range sites {
 			call := site.call
-			if site.recv == "global(cmd.key)" && site.path == "global(cmd.keyPath)" {
+			if site.recv == "global(cmd.key)" && site.path == c.fv("key", "runCmd", "recordCmd", "signCmd") {
 				okKey = true
 			}
-			if site.recv == "global(cmd.cert)" && site.path == "global(cmd.certPath)" {
+			if site.recv == "global(cmd.cert)" && site.path == c.fv("cert", "runCmd", "recordCmd") {
 				for _, b := range f.Blocks {
 					for _, in := range b.Instrs {
 						if st, ok := in.(*ssa.Store); ok && org(st.Addr) == "global(cmd.key).KeyVal.Certificate" && org(st.Val) == "global(cmd.cert).KeyVal.Certificate" && c.okCallAt(call, st.Block()) {
@@ -636,7 +659,7 @@ func ruleC20_5(c *Ctx) {
 	var vf ssa.Value
 	for _, b := range f.Blocks {
 		for _, in := range b.Instrs {
-			if u, ok := in.(*ssa.UnOp); ok && org(u) == "global(cmd.verifyFile)" {
+			if u, ok := in.(*ssa.UnOp); ok && org(u) == c.fv("verify", "signCmd") {
 				vf = u
 			}
 		}
@@ -652,12 +675,12 @@ func ruleC20_5(c *Ctx) {
 	c.check(okVE, R, fn, "a failed verification is an error", vs.Pos(), "non-nil side fails", "sign --verify succeeds although the signature does not verify")
 	same := org(vs.Common().Value) == org(sg.Common().Value) && org(sg.Common().Value) == org(dp.Common().Value) && org(vs.Common().Value) == "in_toto.LoadMetadata(global(cmd.layoutPath))#0"
 	c.check(same, R, fn, "the loaded --file is what is verified / signed / dumped", f.Pos(), "LoadMetadata(layoutPath)", "verify, sign and dump do not operate on the loaded --file")
-	c.check(c.okCallAt(sg, dp.Block()) && org(dp.Common().Args[0]) == "global(cmd.outputPath)", R, fn, "dump to --output only after a successful Sign", dp.Pos(), "Dump(outputPath) dominated by Sign's nil edge", "the file is written without a successful Sign, or not to --output")
+	c.check(c.okCallAt(sg, dp.Block()) && org(dp.Common().Args[0]) == c.fv("output", "signCmd"), R, fn, "dump to --output only after a successful Sign", dp.Pos(), "Dump(outputPath) dominated by Sign's nil edge", "the file is written without a successful Sign, or not to --output")
 	okDef := false
 	for _, b := range f.Blocks {
 		for _, in := range b.Instrs {
-			if st, ok := in.(*ssa.Store); ok && org(st.Addr) == "global(cmd.outputPath)" && org(st.Val) == "global(cmd.layoutPath)" {
-				for _, lc := range lenCompares(f, func(v ssa.Value) bool { return org(v) == "global(cmd.outputPath)" }) {
+			if st, ok := in.(*ssa.Store); ok && org(st.Addr) == c.fv("output", "signCmd") && org(st.Val) == c.fv("file", "signCmd") {
+				for _, lc := range lenCompares(f, func(v ssa.Value) bool { return org(v) == c.fv("output", "signCmd") }) {
 					if c.condAt(lc.bo, evalCmp(lc.op, 0, lc.k), st.Block()) && instrDominates(lc.bo, dp) {
 						okDef = true
 					}
@@ -697,16 +720,58 @@ func ruleC20_6(c *Ctx) {
 		return
 	}
 	a := call.Common().Args
-	c.check(org(a[0]) == "in_toto.LoadMetadata(global(cmd.layoutPath))#0", R, fn, "layout = LoadMetadata(--layout)", call.Pos(), org(a[0]), "layout argument is "+short(org(a[0])))
-	// keys map keyed by the loaded key's id
+	c.check(org(a[0]) == "in_toto.LoadMetadata("+c.fv("layout", "verifyCmd")+")#0", R, fn, "layout = LoadMetadata(--layout)", call.Pos(), org(a[0]), "layout argument is "+short(org(a[0])))
+	// keys map keyed by the loaded key's id: built in verify itself, or in one unexported helper that is handed the
+	// --layout-keys paths
 	okKeys := false
-	if mk, ok := resolve(a[1], call).(*ssa.MakeMap); ok {
+	keyMapOK := func(fr *ssa.Function, mk *ssa.MakeMap, pathsOrg string) bool {
 		for _, r := range *mk.Referrers() {
-			if mu, ok := r.(*ssa.MapUpdate); ok {
-				if org(mu.Key) == "local(pubKey).KeyID" && org(mu.Value) == "local(pubKey)" {
-					for _, ld := range callsIn(f, "(*in_toto.Key).LoadKeyDefaults") {
-						if org(ld.Common().Args[1]) == "global(cmd.pubKeyPaths)[*]" && c.okCallAt(ld, mu.Block()) {
+			mu, ok := r.(*ssa.MapUpdate)
+			if !ok {
+				continue
+			}
+			// value = the key variable, key = that variable's KeyID
+			vld, ok1 := mu.Value.(*ssa.UnOp)
+			kld, ok2 := mu.Key.(*ssa.UnOp)
+			if !ok1 || !ok2 {
+				continue
+			}
+			al, ok := vld.X.(*ssa.Alloc)
+			if !ok {
+				continue
+			}
+			fa, ok := kld.X.(*ssa.FieldAddr)
+			if !ok || fa.X != ssa.Value(al) || fieldName(fa.X.Type(), fa.Field) != "KeyID" {
+				continue
+			}
+			for _, ld := range callsIn(fr, "(*in_toto.Key).LoadKeyDefaults") {
+				if ld.Common().Args[0] == ssa.Value(al) && org(ld.Common().Args[1]) == pathsOrg+"[*]" && c.okCallAt(ld, mu.Block()) {
+					// every path is loaded: the load sits in a range over the whole list
+					if u, isU := ld.Common().Args[1].(*ssa.UnOp); isU && wholeSliceIndex(u.X) {
+						return true
+					}
+				}
+			}
+		}
+		return false
+	}
+	switch x := resolve(a[1], call).(type) {
+	case *ssa.MakeMap:
+		okKeys = keyMapOK(f, x, c.fv("layout-keys", "verifyCmd"))
+	case *ssa.Extract:
+		if hc, ok := x.Tuple.(*ssa.Call); ok && x.Index == 0 {
+			g := hc.Call.StaticCallee()
+			if g != nil && g.Blocks != nil && g.Pkg == f.Pkg && c.okCallAt(hc, call.Block()) {
+				for i, prm := range g.Params {
+					if org(hc.Call.Args[i]) != c.fv("layout-keys", "verifyCmd") {
+						continue
+					}
+					for _, r := range c.nilErrReturns(g) {
+						if mk, ok := resolve(r.Results[0], r).(*ssa.MakeMap); ok && keyMapOK(g, mk, fmt.Sprintf("p%d", paramIndex(prm))) {
 							okKeys = true
+						} else {
+							okKeys = false
+							break
 						}
 					}
 				}
@@ -714,7 +779,7 @@ func ruleC20_6(c *Ctx) {
 		}
 	}
 	c.check(okKeys, R, fn, "layout keys = every --layout-keys file, keyed by its own key id", call.Pos(), "layoutKeys[key.KeyID] = key after a successful load", "the key map is not built from the --layout-keys files under their own key ids")
-	c.check(org(a[2]) == "global(cmd.linkDir)", R, fn, "link directory = --link-dir", call.Pos(), org(a[2]), "link dir is "+org(a[2]))
+	c.check(org(a[2]) == c.fv("link-dir", "verifyCmd"), R, fn, "link directory = --link-dir", call.Pos(), org(a[2]), "link dir is "+org(a[2]))
 	_, emptyParams := resolve(a[4], call).(*ssa.MakeMap)
 	nUpd := 0
 	if mk, ok := resolve(a[4], call).(*ssa.MakeMap); ok {
@@ -727,10 +792,10 @@ func ruleC20_6(c *Ctx) {
 	c.check(emptyParams && nUpd == 0, R, fn, "empty parameter dictionary", call.Pos(), "make(map[string]string)", "parameters passed: "+short(org(a[4])))
 	okInter := derives(a[5], func(v ssa.Value) bool {
 		k, ok := v.(*ssa.Call)
-		return ok && calleeName(k) == "os.ReadFile" && org(k.Call.Args[0]) == "global(cmd.intermediatePaths)[*]"
+		return ok && calleeName(k) == "os.ReadFile" && org(k.Call.Args[0]) == c.fv("intermediate-certs", "verifyCmd")+"[*]"
 	}, true)
 	c.check(okInter || len(a) < 6, R, fn, "intermediates = contents of the --intermediate-certs files", call.Pos(), "os.ReadFile(intermediatePaths[i])", "intermediate PEMs are "+short(org(a[5])))
-	c.check(org(a[len(a)-1]) == "global(cmd.lineNormalization)", R, fn, "line normalisation flag passed on", call.Pos(), "lineNormalization", "last argument is "+org(a[len(a)-1]))
+	c.check(org(a[len(a)-1]) == c.fv("normalize-line-endings", "verifyCmd"), R, fn, "line normalisation flag passed on", call.Pos(), "lineNormalization", "last argument is "+org(a[len(a)-1]))
 	okErr := false
 	if e := errResult(call); e != nil {
 		for _, br := range errBranches(e) {
@@ -741,4 +806,16 @@ func ruleC20_6(c *Ctx) {
 	for _, r := range c.nilErrReturns(f) {
 		c.check(c.okCallAt(call, r.Block()), R, fn, "success only after successful library verification", instrPos(r), "dominated by the nil-error edge", "verify can succeed without the library having verified the chain")
 	}
+}
+
+// fv renders the package variable that is bound to flag --flag of one of the named commands (first match) the way org
+// prints a load of it: the rules refer to the command-line options by flag, not by the name of the Go variable.
+func (c *Ctx) fv(flag string, cmdNames ...string) string {
+	cmds := c.cobraCommands()
+	for _, n := range cmdNames {
+		if cc := cmds[n]; cc != nil && cc.flags[flag] != "" {
+			return "global(cmd." + cc.flags[flag] + ")"
+		}
+	}
+	return "<flag --" + flag + " is not registered>"
 }
